@@ -92,6 +92,8 @@ Definition lv_pred (p : nat) (l : list Z) : bool :=
   | 351%nat => negb (arg 0 l =? -1)
   | 360%nat => arg 0 l =? 1
   | 370%nat => 128 <=? arg 0 l
+  | 380%nat => 1 <=? arg 0 l / 64
+  | 381%nat => (arg 0 l) mod 64 <=? 1
   | _ => std_pint p l
   end.
 
